@@ -3,7 +3,7 @@
 set -e
 cd /verif
 . scripts/env.sh
-for f in vmc; do
+for f in vmc vcoop; do
   scripts/build.sh $f
 done
 echo setup done
